@@ -5,6 +5,14 @@ V = os.path.dirname(os.path.dirname(os.path.abspath(__file__)))
 props = [json.loads(l) for l in open(os.path.join(V, "properties.jsonl"))]
 
 CLAIMS = {
+ "C15": dict(
+   text="Both commands are run as subprocesses. CliContract.tla is the contract as a state machine (RunCompile: exit 0 iff the API accepts; "
+        "ReadDocument: documented structure and every jump parameter = 1-based position, across all routines, of the op the API result identifies "
+        "as target; RunDecompile: the document is accepted) and TLC validates every recorded run; hand-built documents following the docs (every "
+        "routine and argument type, numeric and string coordinates) go through the decompile command; ByteEquiv compares the behaviour of the "
+        "decompiled text with the source's compile result.",
+   ref="§3 C15", technique="TLC validation of recorded CLI runs against the CliContract.tla state machine + ByteEquiv product for round-trip behaviour",
+   note="sampled sources (with and without offset gaps) and documented JSON documents; behaviour compared only inside C02's finding-free domain; runs without answer in 25 s are inconclusive"),
  "C09": dict(
    text="DecompMap.tla walks the map the real decompilers recorded (ExplorerScript structured + fallback, SsbScript), joined with the word found "
         "at the recorded position in the emitted text and with the lines the real compiler's source map gives when the text is compiled again: "
